@@ -1448,7 +1448,8 @@ class _RawSocketMixin:
     def _wait_until_readable(self, loop: asyncio.AbstractEventLoop) -> asyncio.Future:
         def callback(f: object) -> None:
             del self._receive_future
-            loop.remove_reader(self.__raw_socket)
+            if not self._closing:
+                loop.remove_reader(self.__raw_socket)
 
         f = self._receive_future = asyncio.Future()
         loop.add_reader(self.__raw_socket, f.set_result, None)
@@ -1458,7 +1459,8 @@ class _RawSocketMixin:
     def _wait_until_writable(self, loop: asyncio.AbstractEventLoop) -> asyncio.Future:
         def callback(f: object) -> None:
             del self._send_future
-            loop.remove_writer(self.__raw_socket)
+            if not self._closing:
+                loop.remove_writer(self.__raw_socket)
 
         f = self._send_future = asyncio.Future()
         loop.add_writer(self.__raw_socket, f.set_result, None)
@@ -1469,6 +1471,12 @@ class _RawSocketMixin:
         if not self._closing:
             self._closing = True
             if self.__raw_socket.fileno() != -1:
+                # Stop watching the socket first: an event loop that still watches it may
+                # keep the file descriptor open after close(), and a woken reader or
+                # writer would then go back to waiting on it
+                loop = get_running_loop()
+                loop.remove_reader(self.__raw_socket)
+                loop.remove_writer(self.__raw_socket)
                 self.__raw_socket.close()
 
             if self._receive_future and not self._receive_future.done():
